@@ -35,6 +35,13 @@ func c01Scenarios(thorough bool) []histParams {
 	return []histParams{
 		{Prop: "C01", Cfg: WorldCfg{InitialChain: 4, StartHeight: 2, SafeDelayMS: 2000, RemoveMissing: true}, Boot: "synced", Events: ev, Drain: true},
 		{Prop: "C01", Cfg: WorldCfg{InitialChain: 16, StartHeight: 2, SafeDelayMS: 2000, RemoveMissing: true}, Boot: "cold", Events: ev, Drain: true},
+		// catch-up in header batches (the peer's limit scaled from 2000 to 4), out-of-order answers, connection drops
+		{Prop: "C01", Cfg: WorldCfg{InitialChain: 6, StartHeight: 2, SafeDelayMS: 2000, RemoveMissing: true, HeaderBatch: 4}, Boot: "cold",
+			Events: []string{"ansh", "ansb", "ans:1", "drop", "ext:5", "tick:250", "settle"}, Drain: true, ExtraDepth: 2},
+		// the same, started from a reconnect in the pending-sync phase (headers confirmed, blocks outstanding, connection lost)
+		{Prop: "C01", Cfg: WorldCfg{InitialChain: 5, StartHeight: 2, SafeDelayMS: 2000, RemoveMissing: true, HeaderBatch: 4}, Boot: "cold",
+			Prefix: []string{"ansh", "ansh", "ansh", "drop", "tick:1500"},
+			Events: []string{"ansh", "ansb", "ans:1", "drop", "ext:5", "tick:250", "settle"}, Drain: true, ExtraDepth: 1},
 	}
 }
 
